@@ -109,3 +109,10 @@ CLAIMS["C01"] = {
     "note": "The oracle is schedule independent (totals after a deterministic join). Flush ticks use a clock wrapper whose ticker channel is unbuffered and harness-owned, so a tick is an exact hand-off to the flusher goroutine. UDP reads are out of scope here (the property observes the parser input channel).",
     "technique": "property-based testing (rapid) of the concurrent pipeline with a conservation oracle after a deterministic join + stateful model-based testing of one shard; race detector on a subset",
 }
+
+CLAIMS["C11"] = {
+    "text": "A rapid state machine drives a real CloudHandler whose instance cache is owned by the harness (Peek contents, unbuffered IpSink and InfoSource): metric batches and events from three sources and the empty source, lookup completions (found / not found) in any order for sources actually requested, cache inserts/evictions and stats emissions. "
+            "A parked-state model checks after every step and at the end: every datapoint and event leaves exactly once (immediately on cache hit or empty source, otherwise after its completion), enriched with the instance's tags and id iff the lookup succeeded, series re-keyed and merged without loss; a lookup is requested exactly when something is parked for a source with none outstanding and never twice; hosts_queued/items_queued gauges equal the model's counts. Exploration with shrinking histories.",
+    "note": "The stage's single event loop serialises arrivals and completions; the harness relies on its unbuffered channels for hand-off and uses progress waits (30 s) only for deliveries made on goroutines the stage spawns.",
+    "technique": "stateful property-based testing (rapid state machine) against a parked-state model",
+}
